@@ -884,7 +884,7 @@ func (p *Parser) ParseSwitchStatement() (*ast.SwitchStatement, error) {
 			if clause.Test == nil || o.Test == nil || clause.Test.Operator != o.Test.Operator {
 				continue
 			}
-			if clause.Test.Right.String() == o.Test.Right.String() {
+			if caseLabel(clause.Test.Right) == caseLabel(o.Test.Right) {
 				return nil, errors.WithStack(DuplicateCase(clause.Test.Meta))
 			}
 		}
@@ -1090,4 +1090,12 @@ func (p *Parser) ParseFunctionCall() (*ast.FunctionCallStatement, error) {
 	stmt.Trailing = p.Trailing()
 
 	return stmt, nil
+}
+
+// caseLabel is the label of a case clause without the comments around it
+func caseLabel(exp ast.Expression) string {
+	if s, ok := exp.(*ast.String); ok {
+		return s.Value
+	}
+	return exp.String()
 }
